@@ -1,7 +1,6 @@
 package rules
 
 import (
-	"fmt"
 	"go/ast"
 	"go/token"
 	"go/types"
@@ -14,91 +13,9 @@ const cpState = "kvdb/cachedproducer.cacheState"
 
 func init() {
 	register("C27", "other", "T16a SiblingAgreement (constructors initialise every map written), T1 LockSet, T7 Pairing, T4 GuardedBy (normalised counter tests)",
-		"Decides the reference-counting shape: both constructors (Wrap, WrapAll) initialise every map of the shared cache state that openDB writes into (a missing one makes the first open panic); the three maps are only touched under the state mutex; every path of openDB that returns a store increments the reference counter exactly once (paths taken per outcome of the cache lookup; an update written in a module function is counted through its summary: never / always / exactly when a boolean result is true) and returns the store kept in the cache; the close function — with the counter logic inline or in one helper whose error and last-reference results are followed — returns an error when the counter is <= 0, forgets the entry and calls the real close exactly on counter == 1 (one test or two bounds), and stores back counter - 1 otherwise; the drop function — with the test-and-clear inline or in a helper whose boolean result it tests — reads and clears the not-dropped mark in one critical section and calls the real drop only on the marked edge. History equivalence with a reference-counting model is not decided.",
+		"Decides the reference-counting shape: wherever a cache state comes into existence — a state literal in a constructor or in a constructor helper, the state field of every producer literal, new() — every map that openDB writes into is made (a missing one makes the first open panic); an entry of the opened map is removed, anywhere in the package, only on the counter == 1 edge of a test of the reference counter and together with the counter entry (a store that is still referenced stays the one that further opens return); the three maps are only touched under the state mutex; every path of openDB that returns a store increments the reference counter exactly once (paths taken per outcome of the cache lookup; an update written in a module function is counted through its summary: never / always / exactly when a boolean result is true) and returns the store kept in the cache; the close function — with the counter logic inline or in one helper whose error and last-reference results are followed — returns an error when the counter is <= 0, forgets the entry and calls the real close exactly on counter == 1 (one test or two bounds), and stores back counter - 1 otherwise; the drop function — with the test-and-clear inline or in a helper whose boolean result it tests — reads and clears the not-dropped mark in one critical section and calls the real drop only on the marked edge. History equivalence with a reference-counting model is not decided.",
 		[]string{"the wrapped producer's OpenDB/Close/Drop are opaque", "two concurrent first opens of one name are outside this property (histories are sequential)"},
 		runC27)
-}
-
-// checkMapInit is T16a: every composite literal of the struct initialises each map-typed field
-// that some function of the package assigns into.
-func checkMapInit(c *core.Ctx, pkg, structName string, minLits int) {
-	p := c.P
-	tn := p.LookupType(structName)
-	c.Need(tn != nil, "type "+structName)
-	st, ok := tn.Type().Underlying().(*types.Struct)
-	c.Need(ok, structName+" is a struct")
-	written := map[string]string{} // field -> where
-	for _, f := range p.Funcs() {
-		if core.RelPkg(f.Pkg.PkgPath) != pkg {
-			continue
-		}
-		for _, a := range assignments(f) {
-			ix, ok := ast.Unparen(a.LHS).(*ast.IndexExpr)
-			if !ok {
-				continue
-			}
-			fn := fieldNameOf(f, ix.X)
-			if fn == "" {
-				continue
-			}
-			if _, isMap := f.Info().TypeOf(ix.X).Underlying().(*types.Map); isMap {
-				if _, seen := written[fn]; !seen {
-					written[fn] = short(f.Name) + " at " + p.Pos(a.Stmt.Pos())
-				}
-			}
-		}
-	}
-	var mapFields []string
-	for i := 0; i < st.NumFields(); i++ {
-		fld := st.Field(i)
-		if _, isMap := fld.Type().Underlying().(*types.Map); isMap {
-			mapFields = append(mapFields, p.FieldName(fld))
-		}
-	}
-	nLits := 0
-	for _, f := range p.Funcs() {
-		if core.RelPkg(f.Pkg.PkgPath) != pkg {
-			continue
-		}
-		f.InspectOwn(func(n ast.Node) bool {
-			cl, ok := n.(*ast.CompositeLit)
-			if !ok {
-				return true
-			}
-			t := f.Info().TypeOf(cl)
-			if t == nil || !types.Identical(t, tn.Type()) {
-				return true
-			}
-			nLits++
-			inited := map[string]bool{}
-			for _, el := range cl.Elts {
-				kv, ok := el.(*ast.KeyValueExpr)
-				if !ok {
-					continue
-				}
-				if id, ok := kv.Key.(*ast.Ident); ok {
-					if v, ok := f.Info().ObjectOf(id).(*types.Var); ok {
-						if call, isCall := ast.Unparen(kv.Value).(*ast.CallExpr); isCall && calleeName(f, call) == "builtin.make" {
-							inited[p.FieldName(v)] = true
-						} else if _, isLit := ast.Unparen(kv.Value).(*ast.CompositeLit); isLit {
-							inited[p.FieldName(v)] = true
-						}
-					}
-				}
-			}
-			for _, mf := range mapFields {
-				where, w := written[mf]
-				if !w {
-					continue
-				}
-				c.Check(inited[mf], short(f.Name)+"|"+short(mf)+" initialised", "T16a SiblingAgreement", cl.Pos(),
-					"the literal makes the map that "+where+" assigns into",
-					fmt.Sprintf("this constructor leaves %s nil although %s assigns into it: the first such assignment panics (assignment to entry in nil map)", short(mf), where))
-			}
-			return true
-		})
-	}
-	c.ExpectAtLeast("composite literals of "+short(structName), nLits, minLits)
 }
 
 func runC27(c *core.Ctx) {
@@ -106,7 +23,8 @@ func runC27(c *core.Ctx) {
 	opened, refc, notDropped := cpState+".opened", cpState+".refCounter", cpState+".notDropped"
 
 	c.Clause("C27.init", func() {
-		checkMapInit(c, "kvdb/cachedproducer", cpState, 2)
+		// every creation site of a cache state is obliged (see checkMapInit); the floor only excludes vacuity
+		checkMapInit(c, "kvdb/cachedproducer", cpState, 1)
 	})
 
 	c.Clause("C27.lock", func() {
@@ -340,6 +258,10 @@ func runC27(c *core.Ctx) {
 	c.Clause("C27.close", func() {
 		c.Need(closeFn != nil, "StoreWithFn literal with CloseFn closure in the cachedproducer package")
 		c27Close(c, closeFn, isReal("kvdb.Store.Close", "io.Closer.Close"), refc, opened)
+	})
+
+	c.Clause("C27.evict", func() {
+		c27Evict(c, opened, refc)
 	})
 
 	c.Clause("C27.drop", func() {
